@@ -1,5 +1,5 @@
 import Drand.Daemon.Routing
-namespace Drand.Driver
+namespace Drand.Driver.RouteD
 open Drand Drand.Daemon
 
 /-! line protocol of engine `route` (see harness/cmd/verifh/route.go); everything the harness prints after
@@ -21,7 +21,7 @@ def showRes : Except RErr Unit → String
   | .ok _ => "ok"
   | .error e => showErr e
 
-def sortStrs (l : List String) : List String := l.mergeSort (fun a b => decide (a ≤ b))
+private def sortStrs (l : List String) : List String := l.mergeSort (fun a b => decide (a ≤ b))
 
 def bracket (l : List String) : String := "[" ++ ",".intercalate (sortStrs l) ++ "]"
 
@@ -114,4 +114,4 @@ def routeStep (s : State) (f : List String) : State × String :=
   | ["sleep", _] => (s, "ok")
   | _ => (s, "bad-op")
 
-end Drand.Driver
+end Drand.Driver.RouteD
